@@ -12,6 +12,7 @@ from .terms import C, V, Term
 
 
 _PINNED = None
+_PINNED_MODULE_LEVEL = None
 
 
 def is_new_helper(fn) -> bool:
@@ -21,7 +22,15 @@ def is_new_helper(fn) -> bool:
         import json, os
         with open(os.path.join(os.path.dirname(__file__), "pinned_functions.json")) as f:
             _PINNED = set(json.load(f)["functions"])
-    return fn is not None and fn.qualname not in _PINNED and not fn.module.is_test
+        global _PINNED_MODULE_LEVEL
+        import collections
+        _PINNED_MODULE_LEVEL = collections.Counter(q.split(":")[1] for q in _PINNED if "." not in q.split(":")[1])
+    if fn is None or fn.module.is_test or fn.qualname in _PINNED:
+        return False
+    # a module-level function that kept its name and only changed its module (moved, re-exported from the old place) is not new
+    if fn.cls is None and fn.parent is None and not fn.is_lambda and _PINNED_MODULE_LEVEL.get(fn.name) == 1:
+        return False
+    return True
 
 
 def _new_record_classes(p) -> Dict[str, Tuple[str, ...]]:
@@ -59,6 +68,9 @@ class Ctx:
 
     def __init__(self, program: Optional[Program] = None, overlay=None):
         self.p = program or Program(overlay=overlay)
+        # functions a rule has located by their role (a renamed / moved private helper): calls to them stay calls, they are not
+        # read through like helpers that are new
+        self.keep_calls = set()
         self.t = Types(self.p)
         self.cg = CallGraph(self.p, self.t)
         T.RECORD_CLASSES.clear()
@@ -146,7 +158,7 @@ class Normalizer:
                 return not (free & set(module.assigns))
             if isinstance(x, ast.Call) and not x.keywords and all(pure(a) for a in x.args):
                 return self._dotted_external(x.func) in ("operator.attrgetter", "attrgetter", "operator.itemgetter", "itemgetter",
-                                                         "operator.methodcaller", "methodcaller", "float", "frozenset")
+                                                         "operator.methodcaller", "methodcaller", "float", "frozenset", "re.compile")
             if isinstance(x, ast.BinOp):
                 return pure(x.left) and pure(x.right)
             if isinstance(x, (ast.Attribute, ast.Name)):
@@ -226,6 +238,15 @@ class Normalizer:
         t = T.mk_attr(base, name)
         if t in self.heap:
             return self.heap[t]
+        if base[0] in ("v", "cls") or base == self.self_term:
+            # self.__helper / cls.__helper / Class.helper used as a value (key=..., map(...)): the static function it names
+            try:
+                ft = self.ctx.t.type_of(self.fn, e)
+            except Exception:
+                ft = None
+            from .types import FuncT as _FuncT
+            if isinstance(ft, _FuncT) and not ft.fn.is_property and (ft.fn.is_static or ft.fn.is_classmethod):
+                return ("fn", ft.fn.qualname)
         if self.inline > 0 or e.attr in _new_property_names(self.ctx):
             r = self._inline_property(e, base)
             if r is not None:
@@ -620,7 +641,8 @@ class Normalizer:
                 r = self._inline_call(c.fn, params, e, recv)
                 if r is not None:
                     return r
-            elif len(repo) == 1 and self.level < 12 and is_new_helper(c.fn) and c.fn is not self.fn:
+            elif len(repo) == 1 and self.level < 12 and is_new_helper(c.fn) and c.fn is not self.fn \
+                    and c.fn.qualname not in self.ctx.keep_calls:
                 # a helper that did not exist on the pinned tree: read the call through its body
                 saved = self.inline
                 self.inline = saved + 1        # reading through a new helper does not use up the caller's inlining budget
@@ -653,7 +675,11 @@ class Normalizer:
         if dotted is not None:
             return T.mk_call(dotted, args, kwargs)
         if isinstance(f, ast.Attribute):
-            return ("mcall", self.norm(f.value), f.attr, args, kwargs)
+            recv0 = self.norm(f.value)
+            if recv0[0] == "call" and recv0[1] == "re.compile" and len(recv0[2]) == 1 and not recv0[3] and \
+                    f.attr in ("split", "sub", "subn", "match", "search", "fullmatch", "findall", "finditer") and not kwargs:
+                return T.mk_call("re." + f.attr, [recv0[2][0]] + list(args))      # re.compile(P).split(s) == re.split(P, s)
+            return ("mcall", recv0, f.attr, args, kwargs)
         fv = self.norm(f)
         if fv[0] == "lam" and fv[1] == 1 and len(args) == 1 and not kwargs and args[0][0] != "star":
             # a one-parameter lambda value applied on the spot (a selector handed in as an argument): its body at that argument
